@@ -9,6 +9,9 @@ CHECKS = {
  "C09": dict(cat="exploration", tech="runtime monitoring: independent position/coverage oracle over the real lexer's token stream, bounded-exhaustive input enumeration",
    text="The real lexer is run on every string of length <= 6 over a 23-symbol mode-hitting alphabet (155 M inputs; thorough adds length <= 7 over a 14-symbol sub-alphabet), on the corpus (+CRLF, +cut variants) and on seeded random inputs up to 400 bytes; each token stream is checked against offsets, char boundaries, line numbers, column restarts and logical-line indentation recomputed from the text, plus termination, panic capture and peek(n) stability.",
    note="Indentation is read as the leading whitespace of the logical line (as delimited by NewLine tokens); the error token itself is exempt; exhaustive only up to the stated length and alphabet.", ref="4 C09"),
+ "C05": dict(cat="exploration", tech="runtime monitoring: structural invariant checker over every chunk real compile runs emit + online VM monitor at the instruction-observer hook + repeated-compilation relation",
+   text="Every chunk the real compiler emits for the corpus and its complete single-token neighbourhood (thorough; seeded slice in quick) is decoded with the public reader and checked structurally (body starts with NewFrame and ends in a terminator, jump/catch/iterator-exit targets on boundaries of the same body, register operands and ranges inside the frame, constant kinds, capture slots, sequence/string/try depth consistent on the CFG); accepted programs are executed under the instruction observer (ip on a decoded boundary, no error instruction, register window >= frame requirement) with internal-fault classification; 22 size-scaled families are swept across every encoding edge and must be rejected or print their known value; every text is compiled 3x in-process and a sample in a second process.",
+   note="Trusted: InstructionReader as the decoder; limit families' expected values; hooks H1/H3. Does not cover programs outside corpus+neighbourhood+families until kgen streams are attached.", ref="4 C05, 3.4.3, 3.4.4"),
 }
 NOT_YET = {}
 def main():
